@@ -54,4 +54,26 @@ theorem every_connection_attempt_gets_the_bounded_context :
     Generated.dialCtxDerivation = "context.WithDeadline(ctxDial, time.Now().Add(c.connTimeout))" ∧
     Generated.dialCtxArgs ≠ [] ∧ ∀ a ∈ Generated.dialCtxArgs, a = "ctx" := by decide
 
+/-- how many times a trace waited a FULL timeout: an armed wait on a silent server counts when the
+    deadline had been armed afresh since the previous wait (an expired deadline that nobody re-armed
+    makes every further operation fail at once) -/
+def fullWaits (tr : List Ev) : Nat :=
+  (tr.foldl (fun (st : Bool × Nat) e => match e with
+     | .deadline => (true, st.2)
+     | .stall true => (false, if st.1 then st.2 + 1 else st.2)
+     | _ => st) (true, 0)).2
+
+/-- **KNOWN FINDING `c17-dialandsend-twice-the-timeout`** (false of the code, and of the model): the
+    theorems above bound every single wait; they do not bound their number. When the server falls
+    silent at the NOOP of the connection check (first line), at end-of-data (third line) or at the RSET
+    after a message, the send gives up after one timeout, the connection still counts as usable, and
+    the deferred close arms a new deadline for its QUIT and waits once more: DialAndSend returns after
+    twice the configured timeout. A silent server at MAIL costs one timeout (second line). Reproduced
+    against the real code in real time (DESIGN.md section 11) and by suite `c17-send-stall` every run. -/
+theorem counterexample_dialAndSend_waits_twice :
+    fullWaits (dialAndSend {} [.ok, .ok, .stall] [] [{ sender := some (sb "a@b.c"), rcpts := [sb "x@y.z"] }]).conn.trace = 2 ∧
+    fullWaits (dialAndSend {} [.ok, .ok, .ok, .stall] [] [{ sender := some (sb "a@b.c"), rcpts := [sb "x@y.z"] }]).conn.trace = 1 ∧
+    fullWaits (dialAndSend {} [.ok, .ok, .ok, .ok, .ok, .ok, .stall] [] [{ sender := some (sb "a@b.c"), rcpts := [sb "x@y.z"] }]).conn.trace = 2 := by
+  decide
+
 end GoMail.Props.C17
